@@ -1,4 +1,4 @@
-import AfkakProofs.Consumer.Basic
+import AfkakProofs.Consumer.DelayFacts
 /-!
 # The consumer invariant `G`, the proof combinators, and the handlers that call no other handler
 -/
@@ -8,6 +8,7 @@ open Afkak.Consumer Afkak.Monitor Afkak.Consts
 /-- Everything that holds of a reachable state at every point where the re-entrant API may run. -/
 structure G (cfg : Cfg) (s : St) : Prop where
   g1 : G1 s
+  sf : Gsf s
 
 /-- `x` is a good successor of `s`: the invariant holds and the executing generator is untouched. -/
 def Good (cfg : Cfg) (s x : St) : Prop := G cfg x ∧ x.frame = s.frame
@@ -27,22 +28,30 @@ theorem Good.trans {cfg : Cfg} {s x y : St} (h1 : Good cfg s x) (h2 : Good cfg x
 macro "g1_fields" : tactic => `(tactic|
   (constructor <;> ((try unfold emit at *); (try unfold oifOf at *); grind [C02.ovStep, C03.oifStep, C03.oifDone, C03.clpStep, procTrack, runR_cons])))
 
+/-- close `Gsf X` likewise -/
+macro "gsf_fields" : tactic => `(tactic|
+  (constructor <;> ((try unfold emit at *); grind [C02.sfStep, C02.sfIssue, C02.sfDone, activeReq, retryPending, runR_cons])))
+
 /-- `Good cfg s X` for an explicit update `X` of `x`, from `hx : Good cfg s x`. -/
 syntax "leaf" ident : tactic
 macro_rules
   | `(tactic| leaf $hx) => `(tactic|
-      (obtain ⟨⟨⟨h1, h2, h2b, h3, h4, h5, h6, h7, h8, h9, h10, h11, h12, h13⟩⟩, hfr⟩ := $hx
-       refine ⟨⟨?_⟩, ?_⟩
+      (obtain ⟨⟨⟨h1, h2, h2b, h3, h4, h5, h6, h7, h8, h9, h10, h11, h12, h13⟩,
+                ⟨k1, k2, k3, k4⟩⟩, hfr⟩ := $hx
+       refine ⟨⟨?_, ?_⟩, ?_⟩
        · g1_fields
+       · gsf_fields
        · first | exact hfr | (simp only []; exact hfr) | grind))
 
 /-- `G cfg X` for an explicit update `X` of `x` (which may replace the frame), from `hx : G cfg x`. -/
 syntax "gleaf" ident : tactic
 macro_rules
   | `(tactic| gleaf $hx) => `(tactic|
-      (obtain ⟨⟨h1, h2, h2b, h3, h4, h5, h6, h7, h8, h9, h10, h11, h12, h13⟩⟩ := $hx
-       refine ⟨?_⟩
-       g1_fields))
+      (obtain ⟨⟨h1, h2, h2b, h3, h4, h5, h6, h7, h8, h9, h10, h11, h12, h13⟩,
+               ⟨k1, k2, k3, k4⟩⟩ := $hx
+       refine ⟨?_, ?_⟩
+       · g1_fields
+       · gsf_fields))
 
 /-- `Pres cfg h` for a handler that calls no other handler: unfold and check every path. -/
 syntax "pres_leaf" "[" ident* "]" : tactic
@@ -52,9 +61,11 @@ macro_rules
        have hx := Good.refl hs
        unfold $ds*
        (try unfold emit)
-       obtain ⟨⟨⟨h1, h2, h2b, h3, h4, h5, h6, h7, h8, h9, h10, h11, h12, h13⟩⟩, hfr⟩ := hx
-       refine ⟨⟨?_⟩, ?_⟩
+       obtain ⟨⟨⟨h1, h2, h2b, h3, h4, h5, h6, h7, h8, h9, h10, h11, h12, h13⟩,
+                ⟨k1, k2, k3, k4⟩⟩, hfr⟩ := hx
+       refine ⟨⟨?_, ?_⟩, ?_⟩
        · g1_fields
+       · gsf_fields
        · grind))
 
 theorem crash_pres (cfg : Cfg) (site : String) : Pres cfg (crash site) := by pres_leaf [crash]
